@@ -251,11 +251,11 @@ def run(ctx: Any) -> None:  # noqa: C901, PLR0912, PLR0915 - one long driver, ke
         return {b"vgi_rpc.shm_segment_name": s.name.encode(), b"vgi_rpc.shm_segment_size": str(size if size is not None else s.size).encode()}
 
     # ---- run the real server -----------------------------------------------------------------------------------------
-    def drive(srv: RpcServer, data: bytes, *, loop: bool, static: bool, prelude: bytes | None, with_probe: bool) -> tuple[int, int, int, str]:
+    def drive(srv: RpcServer, data: bytes, *, loop: bool, static: bool, prelude: tuple[bytes, int], with_probe: bool) -> tuple[int, int, int, str]:
         """(kind, written code, escaped code, note) of the request in ``data`` (see M_ReadReq.run_case)."""
         # serve() sets the transport kind; for a direct serve_one call it keeps whatever the previous serve() left,
         # which is never HTTP here.
-        stream_in = (prelude or b"") + data
+        stream_in = prelude[0] + data
         rd, wr = io.BytesIO(stream_in), io.BytesIO()
         pipe = PipeTransport(rd, wr)
         t: Any = ShmPipeTransport(pipe, seg) if static else pipe
@@ -266,8 +266,8 @@ def run(ctx: Any) -> None:  # noqa: C901, PLR0912, PLR0915 - one long driver, ke
             if loop:
                 srv.serve(t)
             else:
-                if prelude:
-                    srv.serve_one(t)
+                for _ in range(prelude[1]):
+                    srv.serve_one(t)  # earlier calls on the same connection
                 try:
                     srv.serve_one(t)
                 except BaseException as e:  # noqa: BLE001
@@ -289,8 +289,7 @@ def run(ctx: Any) -> None:  # noqa: C901, PLR0912, PLR0915 - one long driver, ke
         finally:
             signal.setitimer(signal.ITIMER_REAL, 0)
         streams = read_streams(wr.getvalue())
-        if prelude:
-            streams = streams[1:]
+        streams = streams[prelude[1]:]  # every priming request is answered with exactly one stream
 
         def is_probe(st: list[Any]) -> bool:
             return any(b is not None and b.num_rows == 1 and b.schema.names == ["result"] and b.column(0)[0].as_py() == PROBE_A + 1 for _, _, b in st)
@@ -459,9 +458,14 @@ def run(ctx: Any) -> None:  # noqa: C901, PLR0912, PLR0915 - one long driver, ke
 
     cases: list[dict[str, Any]] = []
 
-    def add(label: str, data: bytes, *, srv: str = "plain", loop: bool = True, static: bool = False, cached: bool = False, is_g: bool = False, family: str = "framed", with_probe: bool = True) -> None:
+    def add(label: str, data: bytes, *, srv: str = "plain", loop: bool = True, static: bool = False, cached: bool = False, is_g: bool = False, family: str = "framed", with_probe: bool = True,
+            primed: tuple[str, ...] = ()) -> None:
+        """primed = what happened earlier on the same connection: "ok" a successful call, "fail" a call answered with an
+        error stream, "seg" a successful call that advertised the real segment (the connection cache holds it afterwards)."""
+        if cached and "seg" not in primed:
+            primed = (*primed, "seg")
         full = data + (tick_stream_bytes(1) if is_g else b"") + (probe if with_probe else b"")
-        cases.append({"label": label, "data": data, "full": full, "srv": srv, "loop": loop, "static": static, "cached": cached, "family": family, "with_probe": with_probe})
+        cases.append({"label": label, "data": data, "full": full, "srv": srv, "loop": loop, "static": static, "cached": "seg" in primed, "primed": primed, "family": family, "with_probe": with_probe})
 
     # (a) targeted scenarios: one per arm of the model
     add("good f", build([int_col(1)], ["a"], MDV))
@@ -548,6 +552,36 @@ def run(ctx: Any) -> None:  # noqa: C901, PLR0912, PLR0915 - one long driver, ke
     add("empty column name", build([int_col(1)], [""], MDV))
     add("zero columns for f", build([], [], MDV))
 
+    # (a') metadata mutations: every custom-metadata key the server reads x malformed values, on an otherwise valid call
+    # (and, for the shm keys, on a pointer batch), on a fresh connection and on connections primed by earlier calls
+    PV0 = {b"vgi_rpc.protocol_version": b"1.2.0"}
+    MUT_KEYS = [b"vgi_rpc.method", b"vgi_rpc.request_version", b"traceparent", b"tracestate", b"vgi_rpc.shm_segment_name", b"vgi_rpc.shm_segment_size",
+                b"vgi_rpc.shm_offset", b"vgi_rpc.shm_length", b"vgi_rpc.location", b"vgi_rpc.log_level", b"vgi_rpc.protocol_version", b"vgi_rpc.location.sha256"]
+    MUT_VALS: list[tuple[str, bytes]] = [
+        ("non-utf8", b"\xff\xfe"), ("empty", b""), ("huge text", b"x" * 5000), ("huge number", b"9" * 40), ("negative", b"-1"), ("non-numeric", b"12abc"),
+        ("NUL", b"a\x00b"), ("whitespace number", b" 12 "), ("real segment name", seg.name.encode()), ("other real segment", seg2.name.encode()),
+    ]
+    PRIMINGS: list[tuple[str, ...]] = [(), ("seg",), ("ok",), ("fail",), ("seg", "fail"), ("fail", "seg")]
+    for key in MUT_KEYS:
+        for vname, val in MUT_VALS:
+            base_md = {**MDV, **PV0, b"traceparent": b"00-ab", key: val} if key == b"tracestate" else {**MDV, **PV0, key: val}
+            shapes = [("call", 1)] + ([("pointer", 0)] if b"shm" in key else [])
+            for shape, rows in shapes:
+                extra = {b"vgi_rpc.shm_offset": str(off).encode(), b"vgi_rpc.shm_length": str(ln).encode()} if shape == "pointer" else {}
+                md_m = {**extra, **base_md}
+                if key in (b"vgi_rpc.shm_segment_name",):
+                    md_m.setdefault(b"vgi_rpc.shm_segment_size", str(seg.size).encode())
+                if key in (b"vgi_rpc.shm_segment_size",):
+                    md_m.setdefault(b"vgi_rpc.shm_segment_name", seg.name.encode())
+                data_m = build([int_col(rows)], ["a"], md_m)
+                for pr in PRIMINGS:
+                    if ctx.tier == "quick" and pr not in ((), ("seg",)) and rng.random() < 0.8:
+                        continue
+                    add(f"metadata {key.decode()}={vname} on a {shape}, after {'+'.join(pr) or 'nothing'}", data_m, primed=pr, family="metadata")
+                if ctx.tier != "quick" or rng.random() < 0.15:
+                    add(f"metadata {key.decode()}={vname} on a {shape}, direct serve_one", data_m, loop=False, family="metadata")
+                    add(f"metadata {key.decode()}={vname} on a {shape}, versioned server after seg", data_m, srv="versioned", primed=("seg",), family="metadata")
+
     # (b) random descriptors: metadata keys x values, 0..4 columns, rows 0..3, server and mode
     n_random = 140 if ctx.tier == "quick" else 1500
     for i in range(n_random):
@@ -595,9 +629,15 @@ def run(ctx: Any) -> None:  # noqa: C901, PLR0912, PLR0915 - one long driver, ke
     # ---- run everything ---------------------------------------------------------------------------------------------------
     ctx.rule = ("cases = request bytes (built from a descriptor: metadata map over the framework keys + arbitrary keys with arbitrary "
                 "byte values, 0..4 columns of 18 type/value classes, rows 0..3; or a truncated / corrupted byte string) x server "
-                "{plain, versioned, external-config} x mode {serve loop, direct serve_one, loop with a cached client segment, "
-                "ShmPipeTransport}; distinct by (bytes, server, mode); non-trivial = the request is not the plain good call")
-    prelude = build([int_col(1)], ["a"], {**MDV, **seg_md(seg)})
+                "{plain, versioned, external-config} x mode {serve loop, direct serve_one, ShmPipeTransport} x what happened earlier on the "
+                "same connection {nothing, a successful call, a failed call, a call that advertised a real shm segment, combinations}; the metadata "
+                "family is the grid (every metadata key the server reads) x (non-UTF-8, empty, huge, negative, non-numeric, NUL, ...) x primings; distinct by (bytes, server, mode); non-trivial = the request is not the plain good call")
+    PV = {b"vgi_rpc.protocol_version": b"1.2.0"}
+    PRIME = {
+        "ok": build([int_col(1)], ["a"], {**MDV, **PV}),
+        "fail": build([int_col(1)], ["a"], {**MDV, **PV, b"vgi_rpc.method": b"no_such_method"}),
+        "seg": build([int_col(1)], ["a"], {**MDV, **PV, **seg_md(seg)}),
+    }
     model_cases: list[tuple[str, str]] = []
     meta: list[dict[str, Any]] = []
     observed_classes: dict[str, int] = {}
@@ -605,7 +645,7 @@ def run(ctx: Any) -> None:  # noqa: C901, PLR0912, PLR0915 - one long driver, ke
         for cs in cases:
             srv = servers[cs["srv"]]
             restore()
-            obs = drive(srv, cs["full"], loop=cs["loop"], static=cs["static"], prelude=prelude if cs["cached"] else None, with_probe=cs["with_probe"])
+            obs = drive(srv, cs["full"], loop=cs["loop"], static=cs["static"], prelude=(b"".join(PRIME[k] for k in cs["primed"]), len(cs["primed"])), with_probe=cs["with_probe"])
             restore()
             have = seg if (cs["static"] or (cs["cached"] and cs["loop"])) else None
             d = describe(srv, cs["srv"], cs["full"], have)
@@ -614,9 +654,10 @@ def run(ctx: Any) -> None:  # noqa: C901, PLR0912, PLR0915 - one long driver, ke
             ctx.tally("family", cs["family"])
             ctx.tally("server", cs["srv"])
             ctx.tally("mode", "static" if cs["static"] else "cached" if cs["cached"] else "loop" if cs["loop"] else "direct")
+            ctx.tally("primed", "+".join(cs["primed"]) or "fresh connection")
             ctx.tally("outcome", {0: "response", 1: "error stream", 2: "silent", 3: "ended", 8: "hang", 9: "weird"}[obs[0]])
-            ctx.case([cs["full"].hex(), cs["srv"], cs["loop"], cs["static"], cs["cached"]], nontrivial=cs["label"] != "good f")
-            replay = {"label": cs["label"], "request_hex": cs["data"].hex(), "followed_by_probe_call": cs["with_probe"], "server": cs["srv"], "mode": {"loop": cs["loop"], "static_shm": cs["static"], "cached_segment": cs["cached"]},
+            ctx.case([cs["full"].hex(), cs["srv"], cs["loop"], cs["static"], list(cs["primed"])], nontrivial=cs["label"] != "good f")
+            replay = {"label": cs["label"], "request_hex": cs["data"].hex(), "followed_by_probe_call": cs["with_probe"], "server": cs["srv"], "mode": {"loop": cs["loop"], "static_shm": cs["static"], "cached_segment": cs["cached"]}, "earlier_on_this_connection": [{"kind": k, "request_hex": PRIME[k].hex()} for k in cs["primed"]],
                       "observed": {"kind": obs[0], "written": ALL_EXC[obs[1] - 1] if 0 < obs[1] <= len(ALL_EXC) else obs[1], "escaped": ALL_EXC[obs[2] - 1] if obs[2] else None, "note": obs[3]}}
             if d is None:
                 continue
@@ -695,4 +736,6 @@ def _site_guess(d: dict[str, Any], cs: dict[str, Any]) -> str:
         return "column-value-as_py-raises"
     if d["attach"]:
         return "shm-segment-cannot-be-attached"
+    if not d["shm_meta_ok"]:
+        return "shm-segment-metadata-malformed"
     return "other"
